@@ -11,7 +11,6 @@ import (
 	"encoding/json"
 	"fmt"
 	"runtime"
-	"sort"
 	"strings"
 	"sync"
 	"testing"
@@ -36,6 +35,7 @@ func newSeqRef(p params) seqRef {
 
 // explorer enumerates the event tree over the reference machine and runs every leaf sequence.
 type explorer struct {
+	pool  *callerPool
 	rep   *vh.Report
 	st    *stats
 	depth int
@@ -73,8 +73,8 @@ func (e *explorer) dfs(seq []event, s seqRef) {
 }
 
 // runSequence runs one sequence against a fresh breaker; returns the violation (already reported) or nil.
-func runSequence(rep *vh.Report, st *stats, p params, seq []event, mode, stream string, index int) *viol {
-	x := newSeqRun(p, st)
+func runSequence(rep *vh.Report, st *stats, pool *callerPool, p params, seq []event, mode, stream string, index int) *viol {
+	x := newSeqRun(p, st, pool)
 	st.sequences++
 	for _, ev := range seq {
 		if ev.K == 'F' && x.r.oldest(ev.G) < 0 {
@@ -104,7 +104,7 @@ func runSequence(rep *vh.Report, st *stats, p params, seq []event, mode, stream 
 }
 
 func (e *explorer) runLeaf(seq []event) {
-	runSequence(e.rep, e.st, e.p, seq, "exhaustive", "seq", 0)
+	runSequence(e.rep, e.st, e.pool, e.p, seq, "exhaustive", "seq", 0)
 }
 
 func seqString(seq []event) string {
@@ -145,7 +145,7 @@ func mergeStats(rep *vh.Report, all []*stats, prefix string) (seqs int64) {
 }
 
 func runExhaustive(rep *vh.Report, env vh.Env) {
-	depth := env.Pick(7, 9)
+	depth := env.Pick(11, 13)
 	var items []workItem
 	var grid []params
 	for t := 1; t <= 3; t++ {
@@ -183,8 +183,10 @@ func runExhaustive(rep *vh.Report, env vh.Env) {
 		it := items[i]
 		st := newStats()
 		all[i] = st
-		ex := &explorer{rep: rep, st: st, depth: depth, p: it.p}
+		pool := getPool()
+		ex := &explorer{rep: rep, st: st, depth: depth, p: it.p, pool: pool}
 		ex.dfs(append([]event(nil), it.prefix...), it.s)
+		putPool(pool)
 	})
 	all = append(all, root)
 	seqs := mergeStats(rep, all, "exh_")
@@ -206,7 +208,9 @@ const walkLen = 200
 func runWalk(rep *vh.Report, env vh.Env, st *stats, i int) {
 	r := vh.CaseRNG(env.Seed, "walk", i)
 	p := params{1 + r.Intn(4), 1 + r.Intn(4), 1 + r.Intn(4)}
-	x := newSeqRun(p, st)
+	pool := getPool()
+	defer putPool(pool)
+	x := newSeqRun(p, st, pool)
 	st.sequences++
 	maxConc := 2 + r.Intn(7)
 	failP := []float64{0.2, 0.5, 0.8}[r.Intn(3)]
@@ -289,7 +293,7 @@ func replaySeq(rep *vh.Report, rf *vh.ReplayFile) {
 		seq = append(seq, ev)
 	}
 	st := newStats()
-	runSequence(rep, st, params{c.Trip, c.Reset, c.Cap}, seq, "replay", "seq", 0)
+	runSequence(rep, st, getPool(), params{c.Trip, c.Reset, c.Cap}, seq, "replay", "seq", 0)
 	rep.EvalN(1)
 }
 
@@ -329,9 +333,12 @@ func TestProp(t *testing.T) {
 		rep.Floor("conc_resets", 5)
 		rep.Floor("conc_reopens", 5)
 		rep.Floor("conc_overlapping_histories", 50)
+		rep.Floor("conc_stale_completions", 20)
+		rep.Floor("conc_rejected_open", 10)
+		rep.Floor("conc_rejected_half_open_cap", 5)
 	}
+	closePools()
 	if st := rep.Finish(); st == "violated" {
 		t.Fatalf("C15 violated")
 	}
-	_ = sort.Strings
 }
